@@ -26,6 +26,7 @@ type Engine struct {
 	pkgByName    map[string]*ssa.Package
 	allFns       map[*ssa.Function]bool
 	fnByKey      map[string][]*ssa.Function
+	usesCache    map[*ssa.Function]*fnUses
 	contracts    *ContractSet
 	lib          map[string]libModel
 	libEffects   map[string][]string
@@ -495,7 +496,7 @@ func (e *Engine) verifyFunc(fn *ssa.Function, con *Contract) *FnCtx {
 		v := s.freshVal(p.Type(), "p_"+p.Name())
 		s.env[p] = v
 		c.entryVals[p] = v
-		s.names[p.Name()] = nameBinding{p, false}
+		s.names[p.Name()] = nameBinding{V: p, IsAddr: false}
 		if kindOf(p.Type()) == kStruct {
 			if info, ok := e.typeInvs[typeKey(p.Type())]; ok && !info.ctors[topFn(fn)] {
 				if pr := e.contracts.Preds[info.pred]; pr != nil && len(pr.Params) == 1 {
@@ -527,7 +528,7 @@ func (e *Engine) verifyFunc(fn *ssa.Function, con *Contract) *FnCtx {
 			}
 			frees[fv] = v
 			c.entryFrees[fv] = v
-			s.names[fv.Name()] = nameBinding{fv, true}
+			s.names[fv.Name()] = nameBinding{V: fv, IsAddr: true}
 		}
 	}
 	s.frees = frees
@@ -996,6 +997,13 @@ func (e *Engine) scanCalls(rule CWRule) []string {
 				return true
 			}
 		}
+		if con := e.contracts.Funcs[k]; con != nil {
+			for _, a := range con.Allows {
+				if a == rule.Name {
+					return true
+				}
+			}
+		}
 		return false
 	}
 	for fn := range e.allFns {
@@ -1003,7 +1011,7 @@ func (e *Engine) scanCalls(rule CWRule) []string {
 			continue
 		}
 		k := e.fnKey(fn)
-		if allowed(k) {
+		if allowed(k) || e.helperOf(fn, allowed) {
 			continue
 		}
 		for _, b := range fn.Blocks {
@@ -1696,11 +1704,38 @@ func (e *Engine) parentWindowAccesses(fn *ssa.Function) []winAccess {
 		}
 		return "", false
 	}
-	loopCounter := func(idx ssa.Value) bool {
+	var loopCounter func(idx ssa.Value) bool
+	loopCounter = func(idx ssa.Value) bool {
 		// the strictly increasing counter of a loop that contains a go statement: a header phi whose back-edge
 		// value is itself plus a positive constant (or that incremented value), possibly converted
 		if c, ok := idx.(*ssa.Convert); ok {
 			idx = c.X
+		}
+		// ... or the per-iteration copy of it (`i := i`): a cell that is written exactly once, with the counter
+		if ld, ok := idx.(*ssa.UnOp); ok && ld.Op == token.MUL {
+			if al, ok := ld.X.(*ssa.Alloc); ok {
+				var stored ssa.Value
+				n := 0
+				var walk func(f *ssa.Function)
+				walk = func(f *ssa.Function) {
+					for _, b := range f.Blocks {
+						for _, in := range b.Instrs {
+							if st, ok := in.(*ssa.Store); ok && allocOf(st.Addr) == al {
+								n++
+								stored = st.Val
+							}
+						}
+					}
+					for _, an := range f.AnonFuncs {
+						walk(an)
+					}
+				}
+				walk(fn)
+				if n == 1 && stored != nil {
+					return loopCounter(stored)
+				}
+				return false
+			}
 		}
 		incrOf := func(v ssa.Value) (*ssa.Phi, bool) {
 			b, ok := v.(*ssa.BinOp)
